@@ -189,6 +189,17 @@ func execute(r *core.Run, c *Case) {
 		req = req.WithContext(context.WithValue(context.Background(), ctxKey{}, 1))
 		r.Count("request-via-WithContext", 1)
 	}
+	if c.Behaviour == "hangs-until-context-ends" {
+		if c.Direct {
+			return // the double's direct timestamper does not wait for anybody
+		}
+		// the caller gives up the moment its request has reached the authority
+		ctx, cancel := context.WithCancel(context.Background())
+		defer cancel()
+		net.OnRequest = func(int, *netsim.Request) { cancel() }
+		req = req.WithContext(ctx)
+		r.Count("caller-gave-up-while-the-authority-was-asked", 1)
+	}
 	var raw []byte
 	var serr error
 	r.Eval(1)
